@@ -236,12 +236,16 @@ def run(tier):
     # visibility across modules: what a module imports is in scope there and NOT in the modules that import it in turn
     # (a imports b imports c), whatever the order in which the files are given
     import itertools
-    mods = {"c.pn": "pub const LIMIT: i32 = 7;\nconst HIDDEN: i32 = 8;\n",
+    mods = {"c.pn": "pub const LIMIT: i32 = 7;\nconst HIDDEN: i32 = 8;\nconst HIDDEN_LEN: usize = 3;\nconst HIDDEN_FLAG: bool = true;\nconst HIDDEN_ROW: [2]u8 = [1, 2];\n",
             "b.pn": "import \"c.pn\";\npub fn clamp(x: i32) -> i32\n{\n\tvar r: i32 = x;\n\tif r > LIMIT\n\t{\n\t\tr = LIMIT;\n\t}\n\treturn: r\n}\nconst INNER: i32 = 3;\n"}
     amods = [("uses-transitive", "import \"b.pn\";\nfn main() -> i32\n{\n\tvar r: i32 = clamp(LIMIT);\n\treturn: r\n}\n", ["402"]),
              ("declares-transitive", "import \"b.pn\";\nfn main() -> i32\n{\n\tvar LIMIT: i32 = 9;\n\treturn: clamp(LIMIT)\n}\n", []),
              ("uses-private", "import \"b.pn\";\nfn main() -> i32\n{\n\treturn: clamp(INNER)\n}\n", ["402"]),
              ("declares-private", "import \"b.pn\";\nfn main() -> i32\n{\n\tvar INNER: i32 = 1;\n\tvar HIDDEN: i32 = 2;\n\treturn: clamp(INNER + HIDDEN)\n}\n", []),
+             ("uses-private-of-direct-import", "import \"c.pn\";\nfn main() -> usize\n{\n\treturn: HIDDEN_LEN + 1\n}\n", ["402"]),
+             ("uses-private-length-of-direct-import", "import \"c.pn\";\nfn main() -> i32\n{\n\tvar a: [HIDDEN_LEN]i32;\n\treturn: 0\n}\n", ["402"]),
+             ("uses-private-others-of-direct-import", "import \"c.pn\";\nfn main() -> i32\n{\n\tvar f: bool = HIDDEN_FLAG;\n\tvar r: u8 = HIDDEN_ROW[0];\n\treturn: HIDDEN\n}\n", ["402", "402", "402"]),
+             ("declares-private-of-direct-import", "import \"c.pn\";\nfn take(HIDDEN_LEN: i32) -> i32\n{\n\tvar HIDDEN_FLAG: i32 = 2;\n\tvar HIDDEN_ROW: i32 = 3;\n\treturn: HIDDEN_LEN + HIDDEN_FLAG + HIDDEN_ROW\n}\nfn main() -> i32\n{\n\treturn: take(LIMIT)\n}\n", []),
              ("uses-direct", "import \"b.pn\";\nimport \"c.pn\";\nfn main() -> i32\n{\n\treturn: clamp(LIMIT)\n}\n", []),
              ("redeclares-direct", "import \"b.pn\";\nimport \"c.pn\";\nfn main() -> i32\n{\n\tvar LIMIT: i32 = 9;\n\treturn: clamp(LIMIT)\n}\n", ["422"])]
     msrcs = []
